@@ -36,3 +36,9 @@ def loop_then_read(d, k):
     for q, v in d.items():
         v.add(5)
     return 5 in d[k]
+
+
+def bucket_add(buckets, m, k):
+    b = buckets[m]
+    b[k] = 1
+    return buckets
